@@ -56,27 +56,24 @@ ASSUMPTIONS = [
     "settings.STRICT is False (library default)",
 ]
 STATEMENT_STATUS: Dict[str, str] = {
-    "C16_paint_path_statement": "counter-example proved (C16_paint_path_statement_cex, C16_rect_pts_cex): LTRect.pts "
-                                "order, open finding ltrect-pts-canonical-order",
-    "C16_paint_path_partial": "partial: all attributes of every shape of every painted path (count, order, class, "
-                              "points, bbox, original_path, flags, width, dash, colours) except the order of a "
-                              "rectangle's four points",
-    "C16_subpath_shape_partial": "partial: same exclusion, one sub-path",
-    "C16_rect_pts_horizontal": "proved", "C16_rect_pts_vertical": "proved (characterises the open finding)",
-    "C16_rect_pts_cex": "proved counter-example", "C16_paint_path_statement_cex": "proved counter-example",
-    "C16_paint_flags": "proved (regenerated table = ISO table 60)", "C16_re_path": "proved (regenerated do_re)",
-    "C16_page_ctm": "proved (regenerated process_page table)",
+    "C16_shapes_statement": "counter-example proved (C16_shapes_statement_cex, C16_pattern_cex): pattern colours, "
+                            "open finding pattern-colour-not-recorded",
+    "C16_shapes_partial": "partial: whole token streams of all well-formed programs (incl. ill-typed operands), "
+                          "every page set-up and resource colour-space map, ALL shape attributes; excludes only "
+                          "sc-family operators while a Pattern colour space is current",
+    "C16_paint_path": "proved (full: all attributes incl. rectangle points, every list of sub-paths)",
+    "C16_subpath_shape": "proved (full)",
+    "C16_rect_pts_fixed": "proved (regression instance of the fixed LTRect.pts finding)",
+    "C16_arity_fixed": "proved (regression instance of the fixed colour-arity finding)",
+    "C16_shapes_statement_cex": "proved counter-example", "C16_pattern_cex": "proved counter-example",
+    "C16_ill_typed_ignored": "proved (operators with a non-numeric operand are ignored)",
     "C16_initial_colour": "proved (_initial_color = ISO Table 74 for every colour space)",
     "C16_cs_resets_colour": "proved",
+    "C16_paint_flags": "proved (regenerated table = ISO table 60)", "C16_re_path": "proved (regenerated do_re)",
+    "C16_page_ctm": "proved (regenerated process_page table)",
     "C16_never_raises": "proved (model: no exception on any token stream)",
     "C16_no_residue": "proved", "C16_n_paints_nothing": "proved",
     "C16_gstack_untouched": "proved", "C16_qQ_restores": "proved", "C16_q_saves": "proved",
-    "C16_shapes_statement": "counter-example proved (C16_shapes_statement_cex); open findings",
-    "C16_shapes_partial": "partial: whole token streams of all well-formed programs, every page set-up and "
-                          "resource colour-space map; excludes (explicit hypotheses) the order of a rectangle's "
-                          "points, pattern colours, sc-family operand counts other than 1/3/4",
-    "C16_shapes_statement_cex": "proved counter-example", "C16_pattern_cex": "proved counter-example",
-    "C16_arity_cex": "proved counter-example",
 }
 
 # --------------------------------------------------------------------------- operators
@@ -501,6 +498,8 @@ def spec_run(case) -> List[Dict[str, str]]:
                     raise OutsideDomain("pattern colour needs scn/SCN with a name")
                 gs[key] = ("P", a[-1], tuple(nums(a[:-1])))
             else:
+                if n == 0:
+                    raise OutsideDomain("colour space without components")
                 gs[key] = tuple(nums(a, n))
         elif k == "q":
             nums(a, 0)
@@ -914,11 +913,7 @@ def report_failure(ctx: C.Ctx, case, d) -> None:
 
 
 CLASSIFIERS = {
-    "c16_ltrect_pts_canonical_order": lambda f: bool(f.tags.get("rect_pts_reversed")),
     "c16_pattern_colour_not_recorded": lambda f: bool(f.tags.get("expected_pattern")),
-    "c16_colour_arity_unsupported": lambda f: bool(f.tags.get("arity_unsupported")),
-    "c16_segment_after_h_not_split": lambda f: bool(f.tags.get("segment_after_h")) and
-    f.tags.get("fields") in (["count"], ["kind"], ["pts"], ["kind", "pts"]),
 }
 
 
